@@ -529,7 +529,7 @@ Extra:\n{self.extra_map}
         #  using zip(tx_obj.tx_ins, self.psbt_ins)
         for tx_in, psbt_in in zip(tx_obj.tx_ins, self.psbt_ins):
             # set the ScriptSig of the transaction input
-            tx_in.script_sig = psbt_in.script_sig
+            tx_in.script_sig = psbt_in.script_sig or Script()
             # Exercise 7: if the tx is segwit, set the witness as well
             if tx_obj.segwit:
                 # witness should be the PSBTIn witness or an empty Witness()
